@@ -48,7 +48,7 @@ CHECKS = {
  "C05": ("property-based testing (proptest): (buffer, setter, value) triples against an exact expected-text oracle built from Appendix-B components and the three documented disambiguations; complete product of 720 buffer shapes x 29 calls; every ordered pair of 120 related calls on two buffers (state carried between calls); tail lengths 0..25 000 through each setter; 1-8 MiB values",
          "300 k triples per quick run; the observed text must equal the section 5.3 recomposition with exactly the permitted path adjustment, so both a missing and an unnecessary disambiguation fail, as does any change to another component.",
          "Trusts the Appendix-B splitter and recomposition; for the empty path under an authority both '' and '/' are accepted.", "DESIGN.md 4/C05"),
- "C06": ("property-based testing (proptest): (base, reference) pairs from a dot-rich structural generator, differential against an own RFC 3986 5.2 resolver; three entry points and two families compared; libFuzzer in thorough; complete product 96 bases x ~900 references; the same reference against a sibling base right after (state between calls); base and reference as views of one buffer",
+ "C06": ("property-based testing (proptest): (base, reference) pairs from a dot-rich structural generator, differential against an own RFC 3986 5.2 resolver; three entry points and two families compared; libFuzzer in thorough; complete product 96 bases x ~900 references; the same reference against a sibling base right after (state between calls); base and reference as views of one buffer; deep dot-segment stacks (k leading '..' or plain segments, k = 0..40 and around 64/128/256) as relative reference, behind the reference's own scheme and as the base's path",
          "300 k pairs per quick run over all 5.2.2 branches x base shapes (class floors per cell), byte-identical comparison with the RFC target when it is unambiguous, validity + component + path-rendering check when it is not.",
          "Trusts the harness resolver (R-NORM self-checked against a literal 5.2.4). For relative merged paths whose normal form starts with an empty segment both the literal and the Errata-4547 reading are accepted (the statement does not settle it).", "DESIGN.md 4/C06"),
  "C09": ("exhaustive enumeration of all paths <= 6 segments over {a,b:c,'',.,..} (stand-alone + 3 embeddings) + proptest random long paths, vs dot-segment model; lengths beyond the inline buffers, 1-8 MiB segments followed by small paths on the same thread; thorough tier: one path beyond 4 GiB per family; normalized_segments() also read by internal iteration (fold, rfold, try_fold, try_rfold, rev().for_each, last) and from alternating ends; deep-stack sweep: k kept '..' or k ordinary segments (k = 0..40, around 64/128/256) x every tail of <= 4 segments over {a, .., .}",
